@@ -19,6 +19,7 @@ use sos_core::{
     VaultFlags,
 };
 use std::panic::{catch_unwind, AssertUnwindSafe};
+mod accountops;
 mod folderops;
 mod integrityops;
 mod kdf;
@@ -283,8 +284,14 @@ fn kinds() {
 }
 
 fn main() {
-    std::panic::set_hook(Box::new(|_| {}));
     let args: Vec<String> = std::env::args().collect();
+    if args.get(1).map(|c| c.starts_with("codec-")).unwrap_or(false) {
+        // the codec commands run decoders under catch_unwind and report panics themselves
+        std::panic::set_hook(Box::new(|_| {}));
+    } else {
+        // any other command: a panic means the witness itself could not run (exit 101 -> "could not run")
+        std::panic::set_hook(Box::new(|info| { eprintln!("witness panicked: {}", info); }));
+    }
     if args.len() < 3 {
         eprintln!("usage: sos-replay <codec-roundtrip|codec-fuzz> <Type|all> [cases] [seed]");
         std::process::exit(2);
@@ -317,6 +324,7 @@ fn main() {
         "repro-db-shared-secret-id" => { rt().block_on(folderops::repro_db_shared_secret_id()); }
         "integrity-ops" => { rt().block_on(integrityops::run(cases, seed)); }
         "kdf" => { kdf::run(cases); }
+        "account-ops" => { rt().block_on(accountops::run(cases, seed)); }
         "plaintext-scan" => { rt().block_on(folderops::run_scan(cases, seed)); }
         "log-ops" => { rt().block_on(logops::run(cases, seed)); }
         "merge-patches" => { rt().block_on(mergeops::run(cases, seed)); }
